@@ -31,6 +31,16 @@ CHECKS = {
         text='Theorems: the header map sent upstream contains (k,v) iff k is a trimmed element of pass_headers and v the non-empty client value of k; every upstream request of any diff request carries exactly that map; Access-Control-Allow-Origin is sent iff configured, Origin non-empty and listed (or * listed), echoing exactly the Origin. Correspondence + observer over header sets, pass_headers spellings, origin configurations.',
         note='Trusted: as C06. Modelled not verified: Tornado HTTPHeaders (ASCII-case-insensitive names, multi-values joined by ",").',
         design='5/C18'),
+    'C12': dict(
+        technique='Coq proof over the decoding model with the codec registry / decoders / detectors as arbitrary oracles (totality from one hypothesis, NUL-freedom, precedence lemmas) + extracted-model correspondence on every codec name of the runtime + observers',
+        text='Theorems for all headers, bytes and for ANY behaviour of codecs.lookup and bytes.decode under the chosen label (including raising): the result is text or undecodable given only that UTF-8 with replacement never raises; text has no NUL; header > meta > prolog > detection > UTF-8; unknown or non-text labels give UTF-8. The two sniffing patterns are pinned by theorem from regenerated tables. The extracted model runs against _extract_encoding/_decode_body on every codec name and alias of the runtime x placements x body classes; an HTTP observer checks 200/422.',
+        note='Trusted: Coq kernel, gen_tables.py, extraction, harness. Oracles (modelled not verified): the two byte regexes (results computed from pinned copies), cchardet, codecs.lookup, bytes.decode; hypothesis utf8_total.',
+        design='5/C12'),
+    'C19': dict(
+        technique='Coq proof: injectivity of the hashed pre-image via a verified decoder for Python repr of str/dict (round-trip by induction, hex arithmetic), 304-iff-matcher and no-effects over the handler model + extracted-model correspondence (sha256 of the model pre-image = Etag header) + pairwise HTTP observers',
+        text='Theorems: 304 iff the modelled Tornado matcher accepts, and then no effects; matcher sound/complete w.r.t. wildcard-first or weak equality with some tag; the string handed to SHA-256 (version + path + repr of the ordered effective parameter dict) is injective in (path, ordered effective parameters) for all strings below U+110000 (Python repr proved self-delimiting through a decoder round trip) - so equal validators mean equal requests or a SHA-256 collision; errors carry no validator. Tie: sha256(model pre-image) must equal the Etag header on every 200; pairwise distinctness/repeatability and 19 If-None-Match forms observed over HTTP.',
+        note='Trusted: Coq kernel, gen_tables.py (str.isprintable table from the interpreter), extraction, harness. Modelled not verified: CPython repr (tied by the Etag comparison), Tornado check_etag_header (re-modelled) and auto-ETag on 200 only. SHA-256 uninterpreted.',
+        design='5/C19'),
 }
 
 NOT_YET = {}
